@@ -880,7 +880,7 @@ theorem cook_converges (hc : ScmConv sem fresh Unt)
     simp only [hskip', Bool.false_eq_true, if_false] at hok ⊢
     have hL0 : LoopInv Unt new stb [] (sortedOld stb.old) := by
       have hperm := List.mergeSort_perm stb.old
-        (fun a b => lexLe (keyOf (normComps a.dir)) (keyOf (normComps b.dir)))
+        (fun a b => compsLe (normComps a.dir) (normComps b.dir))
       refine ⟨?_, (by rw [pfs]; exact hW.nodup), (by intro q n h; cases h), ?_, ?_, ?_⟩
       · intro p k hm
         rw [pfs] at hm
